@@ -391,6 +391,24 @@ pub fn monitor(o: &Obs) -> Result<(), String> {
             }
         }
     }
+    // C16: … and when it finishes, every reply it had handed to a requestor's sink has been flushed (c16_reqrep_done_flushed)
+    if o.done {
+        let mut unflushed: BTreeMap<usize, usize> = BTreeMap::new();
+        let mut gone: BTreeMap<usize, bool> = BTreeMap::new();
+        for e in &o.events {
+            match e {
+                Ev::SinkSend(i, _, true) => { *unflushed.entry(*i).or_insert(0) += 1; }
+                Ev::SinkFlush(i, A::Ready) => { unflushed.insert(*i, 0); }
+                Ev::Dropped(_, i) => { gone.insert(*i, true); }
+                _ => {}
+            }
+        }
+        for (i, n) in &unflushed {
+            if *i < V && *n > 0 && !gone.get(i).copied().unwrap_or(false) && !failed.get(i).copied().unwrap_or(false) {
+                return Err(format!("C16: the router finished with {n} frame(s) handed to the sink of requestor k{i} and never flushed"));
+            }
+        }
+    }
     // C16: once the registration channel is closed the router finishes whatever its streams are doing (a replier that
     // stays silent, requests still unanswered): only a sink that cannot take data may delay it
     if o.closed && o.polled_after_close && !o.done && o.panicked.is_none() && !o.last_sink_pending {
